@@ -170,6 +170,13 @@ pub fn value_alphabet() -> Vec<(&'static str, Value)> {
     "[\"a\"]",
     "[1, \"a\"]",
     "[null]",
+    "[1, null]",
+    "[null, \"a\"]",
+    "[[1, null]]",
+    "{a: [null, 2]}",
+    "{a: [1, \"a\"]}",
+    "[{a: 1}, {a: null}]",
+    "[{a: 1}, {a: 2, b: 3}]",
     "[[1]]",
     "[[1], [2]]",
     "[true]",
@@ -191,6 +198,19 @@ pub fn value_alphabet() -> Vec<(&'static str, Value)> {
   .iter()
   .map(|t| (*t, eval_value(t)))
   .collect()
+}
+
+/// Conformance of a value to a type, decided on the value itself: a list conforms to list<T> when every item conforms to T
+/// (its items need not share one type), a context conforms to context<k: T> when it has the entry and the entry conforms.
+fn value_conforms(v: &Value, t: &Ty) -> bool {
+  if matches!(v, Value::Null(_)) || *t == Ty::Any {
+    return true;
+  }
+  match (v, t) {
+    (Value::List(items), Ty::List(inner)) => items.as_vec().iter().all(|i| value_conforms(i, inner)),
+    (Value::Context(ctx), Ty::Context(entries)) => entries.iter().all(|(k, et)| ctx.get_entry(&dmntk_feel::Name::from(k.as_str())).map(|e| value_conforms(e, et)).unwrap_or(false)),
+    _ => conforms(&ty_of(&v.type_of()), t),
+  }
 }
 
 /// Maps a FeelType back to Ty (for the reference relation on Value::type_of).
@@ -319,6 +339,9 @@ pub fn run() {
       Ty::List(Box::new(Ty::List(Box::new(Ty::Number)))),
       Ty::List(Box::new(Ty::Boolean)),
       Ty::List(Box::new(Ty::Context(vec![("a".into(), Ty::Number)]))),
+      Ty::List(Box::new(Ty::Context(vec![("a".into(), Ty::List(Box::new(Ty::Number)))]))),
+      Ty::Context(vec![("a".into(), Ty::List(Box::new(Ty::Number)))]),
+      Ty::List(Box::new(Ty::List(Box::new(Ty::Any)))),
       Ty::Context(vec![("a".into(), Ty::Context(vec![("b".into(), Ty::Number)]))]),
       Ty::Range(Box::new(Ty::String)),
       Ty::List(Box::new(Ty::Function(vec![Ty::Number], Box::new(Ty::Any)))),
@@ -330,18 +353,17 @@ pub fn run() {
     for (vt, v) in &vals {
       coercions.fetch_add(1, Ordering::Relaxed);
       let got = ft.coerced(v);
-      let vty = ty_of(&v.type_of());
-      // reference: the value itself, a singleton wrap, a singleton unwrap, or null
-      let expected: Value = if conforms(&vty, target) {
+      // reference: the value itself, a singleton wrap, a singleton unwrap, or null - conformance decided on the value
+      let expected: Value = if value_conforms(v, target) {
         v.clone()
       } else if let Ty::List(inner) = target {
-        if conforms(&vty, inner) {
+        if value_conforms(v, inner) {
           Value::List(dmntk_feel::values::Values::new(vec![v.clone()]))
         } else {
           Value::Null(None)
         }
       } else if let Value::List(items) = v {
-        if items.len() == 1 && conforms(&ty_of(&items.as_vec()[0].type_of()), target) {
+        if items.len() == 1 && value_conforms(&items.as_vec()[0], target) {
           items.as_vec()[0].clone()
         } else {
           Value::Null(None)
@@ -357,7 +379,7 @@ pub fn run() {
           case.clone(),
         );
       }
-      if !matches!(got, Value::Null(_)) && !got.type_of().is_conformant(&ft) {
+      if !matches!(got, Value::Null(_)) && !value_conforms(&got, target) {
         run.violation(
           &format!("coercion-result-not-conformant:{}:{}", shape(target), crate::rval::class_of_value(v)),
           &format!("coercing {} to {} gives {}, whose type {} does not conform to the target", vt, target.text(), got, got.type_of()),
